@@ -19,7 +19,12 @@ other `Props/Pipeline*.lean` files this one has no property id of its own; each 
   `follow_screen_is_batch_output` (aggregate statement without LIMIT and join, every format: the k-th delivered
   line either refreshes the screen with exactly the output of the batch program over the first k lines, or — WHERE or
   the admission rule rejects it — leaves everything as it is and the batch output over k lines is the one over k−1;
-  `shown_line_screen_is_batch_output`: the last screen after a shown line IS that batch output).
+  `shown_line_screen_is_batch_output`: the last screen after a shown line IS that batch output;
+  `follow_screens_are_batch_outputs`: every screen ever shown is the batch output over a prefix;
+  `quiescent_followText_is_run_over_complete_lines`: these are statements about `followText` on caught-up schedules;
+  `follow_table_failure_is_batch_table_failure_partial`: `execute_result` fails for the k-th line iff the batch program
+  over k lines fails, with the same error — given the updates succeed in both modes; `exScreenHyps`: all hypotheses
+  at once, by the kernel).
   Side conditions, exactly (`PlainLine`): the batch reader must read the delivered lines as the same texts — valid
   UTF-8 (follow mode does NOT end on an invalid line and reports nothing: the line's text is `from_utf8_lossy`, an
   external fact; batch mode ends with `FailReadFile`) and no `\r` before the `\n` (follow mode keeps it as content).
@@ -799,6 +804,46 @@ example : ∀ l ∈ [strBytes "a;1", strBytes "zzz", strBytes "b;2"], PlainLine 
   intro l hl
   simp only [List.mem_cons, List.mem_nil_iff, or_false] at hl
   rcases hl with rfl | rfl | rfl <;> exact ⟨by decide +kernel, by decide +kernel, by decide +kernel⟩
+
+/-- ALL hypotheses of `follow_screen_is_batch_output` (and, with `pre ++ [l]` for `ls`, of `follow_screens_are_batch_outputs`
+for its last prefix) as one decidable check: both texts lower, the patterns are valid by the facts, the statement is an
+aggregate statement without join and LIMIT, the FROM table is defined, the lines are plain, the GROUP BY keys seen are
+exact (every key value NULL, INT, TEXT, BOOLEAN …: `keysExact_of_simple`), follow mode over the lines ends `Ok`, the
+batch program over the file holding them ends `Ok` -/
+def exScreenHyps (F : Facts) (defsText queryText : List Char) (fmt : Print.Format) (single : Bool) (pre : List (List Nat))
+    (l : List Nat) : Bool :=
+  classesCover F defsText && classesCover F queryText && decide (∀ x ∈ pre ++ [l], PlainLine x) &&
+  match parseText (lexOracles F) (regexValidFn F) defsText, parseText (lexOracles F) (regexValidFn F) queryText with
+  | .stmt defs, .stmt (.aggregate a fromTable _ none) =>
+    (createPatterns defs).all (fun re => ((Utf8.decode re).bind (regexValidOf F)).isSome) && a.limit.isNone &&
+    match addTables defs with
+    | some tables =>
+      match getTable tables fromTable with
+      | some t =>
+        (groupKeysOf F.eval a (followEnvs t.info ((pre ++ [l]).map (extractedLine F t.defn)))).all (fun k => k.all Spec.Agg.simpleValue) &&
+        (match followLines F defsText queryText fmt (pre ++ [l]) none with
+          | .ran none _ => true
+          | _ => false) &&
+        (match runText F defsText queryText fmt single [wire (pre ++ [l])] with
+          | .records none _ _ => true
+          | _ => false)
+      | none => false
+    | none => false
+  | _, _ => false
+
+/-- … discharged by the kernel on a GROUP BY statement with HAVING in the CSV format, two lines delivered, a third (shown)
+arriving; and what the theorem then says, evaluated: the screens written for two lines, a clear, the batch output over
+three lines -/
+example : exScreenHyps exFacts exDefs "select k, count(*), max(v) from t group by k having count(*) > 0".toList (.csv [59]) false
+    [strBytes "a;1", strBytes "zzz"] (strBytes "b;2") = true := by decide +kernel
+example :
+    ranOf (followLines exFacts exDefs "select k, count(*), max(v) from t group by k having count(*) > 0".toList (.csv [59])
+      [strBytes "a;1", strBytes "zzz", strBytes "b;2"] none) =
+      some (none, [.clear, .line (strBytes "k;count1;max2"), .line (strBytes "'a';1;1"),
+                   .clear, .line (strBytes "k;count1;max2"), .line (strBytes "'a';1;1"), .line (strBytes "'b';1;2")]) ∧
+    Props.Pipeline.recordsOf (runText exFacts exDefs "select k, count(*), max(v) from t group by k having count(*) > 0".toList (.csv [59]) false
+      [wire [strBytes "a;1", strBytes "zzz", strBytes "b;2"]]) =
+      some (none, 3, [strBytes "k;count1;max2", strBytes "'a';1;1", strBytes "'b';1;2"]) := by decide +kernel
 
 /-- a noise line among the delivered lines (hypothesis of `follow_noise_lines_invisible`), and the two answers -/
 example : ((queriedTable exFacts exDefs "select k from t".toList).map (fun t => noRowFollow exFacts t.defn (strBytes "zzz"))) = some true := by
